@@ -55,6 +55,52 @@ func generateHarness(kind, src, tmp, repo string) (string, error) {
 			items = append(items, "&"+n+"{}")
 		}
 		text = strings.Replace(text, "/*TYPES*/", strings.Join(items, ", "), 1)
+	case "enum-table":
+		pkgs, err := loadTypes(repo, "./asm/enum")
+		if err != nil || len(pkgs) != 1 {
+			return "", fmt.Errorf("load ./asm/enum: %v", err)
+		}
+		sc := pkgs[0].Types.Scope()
+		var rows []string
+		nconst := 0
+		names := sc.Names()
+		sort.Strings(names)
+		for _, n := range names {
+			fn, ok := sc.Lookup(n).(*types.Func)
+			if !ok || !strings.HasSuffix(n, "FromString") {
+				continue
+			}
+			sig := fn.Type().(*types.Signature)
+			if sig.Results().Len() != 1 || sig.Params().Len() != 1 {
+				continue
+			}
+			rt, ok := sig.Results().At(0).Type().(*types.Named)
+			if !ok {
+				continue
+			}
+			tpkg := rt.Obj().Pkg()
+			alias := "enum"
+			if tpkg.Name() == "types" {
+				alias = "types"
+			}
+			var consts []string
+			tsc := tpkg.Scope()
+			cn := tsc.Names()
+			sort.Strings(cn)
+			for _, c := range cn {
+				co, ok := tsc.Lookup(c).(*types.Const)
+				if !ok || !types.Identical(co.Type(), rt) || !co.Exported() {
+					continue
+				}
+				consts = append(consts, fmt.Sprintf("{%q, %s.%s.String(), uint64(%s.%s)}", c, alias, c, alias, c))
+				nconst++
+			}
+			rows = append(rows, fmt.Sprintf("{%q, func(s string) uint64 { return uint64(asmenum.%s(s)) }, []verifC18Const{%s}}", rt.Obj().Name(), n, strings.Join(consts, ", ")))
+		}
+		if nconst == 0 {
+			return "", fmt.Errorf("no enum constants found")
+		}
+		text = strings.Replace(text, "/*ENUMS*/", strings.Join(rows, ",\n\t")+",", 1)
 	default:
 		return "", fmt.Errorf("unknown generator %s", kind)
 	}
